@@ -375,11 +375,7 @@ pub fn find_field_with_variant_sequential_constrained(
                 eprintln!(
                     "DEBUG: Returning value for {}: '{}'",
                     base_tag,
-                    if value.len() > 50 {
-                        &value[..50]
-                    } else {
-                        value
-                    }
+                    value.chars().take(50).collect::<String>()
                 );
             }
         }
